@@ -380,6 +380,30 @@ theorem lookupByValue_spec {t : Table} (wf : WF t) (v k : Ptr) :
   · intro h
     exact List.mem_map.mpr ⟨(k, v), List.mem_filter.mpr ⟨h, by simp⟩, rfl⟩
 
+/-- lookup by value through a compare function lists exactly the keys whose current value the function calls equal
+    (`p x` = `func (x, val) == 0`), for any such function -/
+theorem lookupByValueF_spec {t : Table} (wf : WF t) (p : Ptr → Bool) (k : Ptr) :
+    k ∈ lookupByValueF t p ↔ ∃ v, abs t k = some v ∧ p v = true := by
+  unfold lookupByValueF
+  constructor
+  · intro h
+    obtain ⟨n, hn, rfl⟩ := List.mem_map.mp h
+    have := List.mem_filter.mp hn
+    exact ⟨n.2, (mem_nodes_iff wf n.1 n.2).mp this.1, this.2⟩
+  · rintro ⟨v, hv, hp⟩
+    exact List.mem_map.mpr ⟨(k, v), List.mem_filter.mpr ⟨(mem_nodes_iff wf k v).mpr hv, hp⟩, rfl⟩
+
+/-- … each such key once -/
+theorem lookupByValueF_nodup {t : Table} (wf : WF t) (p : Ptr → Bool) : (lookupByValueF t p).Nodup := by
+  have h := keys_nodup wf
+  unfold keys at h
+  unfold lookupByValueF
+  exact (List.filter_sublist.map _).nodup h
+
+/-- without a function the comparison is pointer equality on the full word -/
+theorem lookupByValue_eq_F (t : Table) (v : Ptr) : lookupByValue t v = lookupByValueF t (fun x => x = v) := by
+  simp [lookupByValue, lookupByValueF]
+
 /-! ## whole operation sequences refine the map -/
 
 inductive Op where
@@ -413,6 +437,52 @@ def specRun (m : Spec) : List Op → Spec × List (Option (Option Ptr))
 /-- the hash computation is defined (no undefined behaviour) for **every** key -/
 theorem hash_no_ub (k : Ptr) : (hash k).isSome := by
   simp [hash, calcHash, hashSum, hashAddSigned]
+
+/-! ### insert while the allocator fails -/
+
+/-- the key is stored already: no allocation is needed, the insert overwrites as always -/
+theorem insertOOM_present {t : Table} {k v : Ptr} {h : Nat} (hk : hash k = some h)
+    (hp : (findNode (chainAt t h) k).isSome) : insertOOM t k v = insert t k v := by
+  simp [insertOOM, insert, hk, insertAtOOM, insertAt, hp]
+
+/-- a new key: nothing is added and nothing else changes — the table is the same table -/
+theorem insertOOM_absent {t : Table} {k v : Ptr} {h : Nat} (hk : hash k = some h)
+    (hp : (findNode (chainAt t h) k).isSome = false) : insertOOM t k v = some t := by
+  simp [insertOOM, hk, insertAtOOM, hp]
+
+/-- seen through the map: a failed allocation changes the map only by overwriting a key that is present -/
+theorem abs_insertOOM {t t' : Table} (wf : WF t) {k v : Ptr} (hi : insertOOM t k v = some t') (k' : Ptr)
+    (hk' : (hash k').isSome) :
+    abs t' k' = if k' = k ∧ (abs t k).isSome then some v else abs t k' := by
+  obtain ⟨h, hk⟩ := Option.isSome_iff_exists.mp (hash_no_ub k)
+  have hl := lookup_eq_abs t k h hk
+  by_cases hp : (findNode (chainAt t h) k).isSome
+  · rw [insertOOM_present hk hp] at hi
+    rw [abs_insert wf hi k' hk']
+    have : (abs t k).isSome := by
+      have : lookup t k = some (findNode (chainAt t h) k) := by simp [lookup, hk]
+      rw [this] at hl; simp at hl; rw [← hl]; exact hp
+    by_cases e : k' = k <;> simp [e, this]
+  · have hp' : (findNode (chainAt t h) k).isSome = false := by simpa using hp
+    rw [insertOOM_absent hk hp'] at hi
+    have e : t' = t := by simpa using hi.symm
+    have : (abs t k).isSome = false := by
+      have : lookup t k = some (findNode (chainAt t h) k) := by simp [lookup, hk]
+      rw [this] at hl; simp at hl; rw [← hl]; exact hp'
+    subst e
+    simp [this]
+
+/-- well-formedness survives the failed insert -/
+theorem wf_insertOOM {t t' : Table} (wf : WF t) {k v : Ptr} (hi : insertOOM t k v = some t') : WF t' := by
+  obtain ⟨h, hk⟩ := Option.isSome_iff_exists.mp (hash_no_ub k)
+  by_cases hp : (findNode (chainAt t h) k).isSome
+  · rw [insertOOM_present hk hp] at hi
+    have : t' = insertAt t h k v := by simpa [insert, hk] using hi.symm
+    rw [this]; exact wf_insertAt wf hk
+  · have hp' : (findNode (chainAt t h) k).isSome = false := by simpa using hp
+    rw [insertOOM_absent hk hp'] at hi
+    have e : t' = t := by simpa using hi.symm
+    rw [e]; exact wf
 
 /-- **Main refinement theorem**: every operation sequence on the empty table is UB-free, and
     gives exactly the outputs of the reference map, for all keys/values. -/
@@ -486,6 +556,12 @@ theorem lLast_eq (l : PList) : lLast l = l.getLast? := by
     | nil => rfl
     | cons y ys => simp only [lLast, ih, List.getLast?_cons_cons]
 
+/-- `p_list_foreach` hands every element to the callback, once, in list order -/
+theorem lForeach_eq (l : PList) : lForeach l = l := by
+  induction l with
+  | nil => rfl
+  | cons x xs ih => simp [lForeach, ih]
+
 theorem lLength_eq (l : PList) : lLength l = l.length := by
   induction l with
   | nil => rfl
@@ -494,9 +570,20 @@ theorem lLength_eq (l : PList) : lLength l = l.length := by
     | nil => rfl
     | cons y ys => simp only [lLength, ih, List.length_cons]
 
+/-- the source fact the translator pins (`tools/extract.py`, refusing any other text): every function of phashtable.c and
+    plist.c is the text this model was written from, and neither file has file-scope state -/
+theorem container_source_as_modelled : Generated.containerShapesAsModelled = true := by decide
+
 /-! ## non-vacuity -/
 example : WF empty := wf_empty
 example : (run empty [.ins 0 5, .ins 0xFFFFFFFFFFFFFFFF 6, .ins 0x7FFFFFFF 7, .get 0x7FFFFFFF, .rem 0, .get 0]).isSome := by
   decide
+
+/-! non-vacuity of the allocation-failure and compare-function statements: a new key under a failed allocation leaves the
+    table alone, a present key is overwritten, and a (non-symmetric) compare function selects by the stored value -/
+example : (insert empty 5 1).bind (fun t => insertOOM t 106 2) = insert empty 5 1 := by decide
+example : (insert empty 5 1).bind (fun t => insertOOM t 5 2) = insert empty 5 2 := by decide
+example : ((insert empty 7 0x109).bind (fun t => insert t 9 0x300)).map (fun t => lookupByValueF t (fun x => x >>> 8 == 1)) = some [7] := by decide
+example : lForeach [1, 2, 3] = [1, 2, 3] := by decide
 
 end PV.HT
